@@ -32,6 +32,12 @@ fn case(ctx: &mut Ctx, index: u64, rng: &mut Rng) {
         let mut w = wire.lock();
         w.max_write = *rng.pick(&[1usize, 3, 7, 16, 64, 4096, usize::MAX]);
         w.stall_pct = *rng.pick(&[0u64, 20, 50, 80]);
+        if ctx.args.layer == "miri" {
+            // the interpreter is ~10^4 times slower: one-byte writes of multi-kilobyte messages with 80 % stalls take
+            // more than ten minutes per case there (the monitor and release layers run them)
+            w.max_write = w.max_write.max(7);
+            w.stall_pct = w.stall_pct.min(50);
+        }
     }
     let mut sched = Sched::new(Rng::new(rng.next_u64()));
     let bias = *rng.pick(&[(4u64, 3u64, 2u64), (1, 8, 1), (1, 1, 8), (2, 6, 2)]);
@@ -50,6 +56,7 @@ fn case(ctx: &mut Ctx, index: u64, rng: &mut Rng) {
     let sent: Rc<RefCell<Vec<SentRec>>> = Rc::new(RefCell::new(Vec::new()));
     let errors: Rc<RefCell<Vec<String>>> = Rc::new(RefCell::new(Vec::new()));
     let mut sender_tasks: Vec<usize> = Vec::new();
+    let mut total_bytes = 0u64;
     for s in 0..nsenders {
         // pre-build this sender's messages (unique (sender, seq) in the body, random padding, 0-2 fds)
         let mut msgs: Vec<(Message, Vec<(u64, u64)>)> = Vec::new();
@@ -57,6 +64,7 @@ fn case(ctx: &mut Ctx, index: u64, rng: &mut Rng) {
             let pad = match rng.below(6) {
                 0 => 0,
                 1 => 1 + rng.usize_below(16),
+                2 if ctx.args.layer == "miri" => 400 + rng.usize_below(500),
                 2 => 4000 + rng.usize_below(5000),
                 _ => rng.usize_below(300),
             };
@@ -74,6 +82,7 @@ fn case(ctx: &mut Ctx, index: u64, rng: &mut Rng) {
             }
             let body: Structure<'_> = b.build().unwrap();
             let m = Message::signal("/s", "s.s", "S").unwrap().build(&body).unwrap();
+            total_bytes += m.data().bytes().len() as u64;
             msgs.push((m, ids));
         }
         let conn2 = conn.clone();
@@ -92,18 +101,34 @@ fn case(ctx: &mut Ctx, index: u64, rng: &mut Rng) {
     let w3 = wire.clone();
     let net = sched.add_net(Box::new(move || w3.unblock_write()));
     let _ = net;
-    let quiescent = sched.run_to_quiescence();
+    let mut quiescent = sched.run_to_quiescence();
+    // The scheduler's step bound is a harness limit, not a verdict: a large workload over a 1-byte, mostly stalling
+    // transport legitimately needs more steps. Keep going for as long as the transport keeps being written to; every
+    // write call takes at least one byte, so the number of write calls is bounded by the bytes the senders hold.
+    let mut last_calls = wire.lock().write_calls;
+    while !quiescent && last_calls <= total_bytes + 64 {
+        sched.max_steps += 200_000;
+        ctx.count("step_bound_extensions", 1);
+        quiescent = sched.run_to_quiescence();
+        let now_calls = wire.lock().write_calls;
+        if now_calls == last_calls {
+            break;
+        }
+        last_calls = now_calls;
+    }
     let hist = std::mem::take(&mut sched.hist);
     let fp = sched.fingerprint();
     let all_done = sender_tasks.iter().all(|t| sched.is_done(*t));
     let trace = sched.trace_string();
+    let steps_taken = sched.steps;
     drop(sched);
     ctx.distinct(fp);
     let w = wire.lock();
     let desc = json!({"senders": nsenders, "per_sender": per, "max_write": if w.max_write == usize::MAX { 0 } else { w.max_write }, "stall_pct": w.stall_pct,
-                      "write_calls": w.write_calls, "stalls": w.write_stalls, "trace": trace});
+                      "write_calls": w.write_calls, "stalls": w.write_stalls, "total_bytes": total_bytes, "steps": steps_taken, "trace": trace});
     if !quiescent || !all_done {
-        ctx.finding(index, "senders-did-not-finish", "-", "-", desc.clone());
+        // quiescent with a sender still pending = a lost wake-up / deadlock; not quiescent = no new write call over 200 000 further steps, or more write calls than bytes to send
+        ctx.finding(index, "senders-did-not-finish", if quiescent { "pending-at-quiescence" } else { "not-quiescent-after-extended-steps" }, "-", desc.clone());
         return;
     }
     if !errors.borrow().is_empty() {
